@@ -6,9 +6,11 @@ import os
 ROOT = os.path.dirname(os.path.dirname(os.path.abspath(__file__)))
 
 LEVEL_NOTE_COMMON = (
-    "Trusted: Coq 8.16.1 kernel + vm_compute; the hand-written Gallina model (tied to /repo only by the "
-    "correspondence check that runs model and implementation on the same inputs, and by data regenerated from "
-    "the imported modules); the Python harness; CPython/wpilib-sim/ntcore. No axioms of our own; "
+    "Trusted: Coq 8.16.1 kernel + vm_compute; the hand-written Gallina model (tied to /repo by the "
+    "correspondence check that runs model and implementation on the same inputs, by data regenerated from "
+    "the imported modules and - where named - by programs/methods regenerated from the source by the fail-closed "
+    "translators harness/robot_translate.py and harness/pytr.py, whose reading of each Python statement form is trusted); "
+    "the Python harness; CPython/wpilib-sim/ntcore. No axioms of our own; "
     "Print Assumptions of every property theorem is checked on every run. ")
 
 CLAIMED = {
@@ -16,18 +18,20 @@ CLAIMED = {
         text="Theorems (Coq, all byte strings of all lengths): table-driven crc == bit-serial CRC-7/0x91, 7-bit result, "
              "XOR-linearity, detection of every single-bit, every double-bit (<127 apart) and every burst<=7 error; the "
              "256-entry table is regenerated from the imported module and table_ok is re-proved on every run; the byte "
-             "loop is tied by correspondence (exhaustive over 1-byte, and in thorough 2-byte, messages).",
+             "loop is regenerated from the source (proved equal to the model's fold for every table and message) and tied by "
+             "correspondence (exhaustive over 1-byte, and in thorough 2-byte, messages; reused mutable buffers).",
         note="Closed under the global context. Modelled: Python list indexing / int xor / iteration over bytes.",
-        technique="Coq proof (induction over the message + finite vm_compute sweeps lifted by forallb_forall) + regenerated table + correspondence",
+        technique="Coq proof (induction over the message + finite vm_compute sweeps lifted by forallb_forall) + regenerated table and loop + correspondence",
         design="6.12"),
     "C19": dict(
         text="Theorems (Coq, every sample/record/call history by induction): Toggle value = parity of released->pressed edges among "
              "the sampled levels, on = not off, changes exactly at rising edges, debounced changes >= period apart and only on a pressed "
              "sample; ButtonDebouncer exact characterisation (True iff pressed and now - last True > period), spacing, liveness; "
              "PeriodicFilter bypass always passes, lower records > period apart; SimpleWatchdog isExpired iff now - last feed > timeout, "
-             "warnings > 1 s apart, addEpoch invisible. Tied to the four classes by trace correspondence under injected dyadic clocks.",
+             "warnings > 1 s apart, addEpoch invisible. Tied to the four classes by 18 methods/constructors regenerated from the source on every run "
+             "(each proved equal to its model function for all states and inputs) and by trace correspondence under injected dyadic clocks.",
         note="Closed under the global context. Clock arithmetic idealised over Z ticks (dyadic clocks in the correspondence); spacing theorems assume non-decreasing clock readings.",
-        technique="Coq proof (induction over histories, invariants) + trace correspondence evaluated in Coq",
+        technique="Coq proof (induction over histories, invariants) + model functions regenerated from the source (pytr) + trace correspondence evaluated in Coq",
         design="6.11"),
     "C15": dict(
         text="Theorems (Coq, all mode shapes, per-iteration user code, histories over any number of periods): first state runs "
@@ -96,9 +100,10 @@ CLAIMED = {
         text="Theorems (Coq, every period, start time and list of body durations over Z microseconds): expiry stays on the t0+k*P grid; the k-th wait "
              "returns at max(call, t0+k*P), never early, exactly on the grid when called on time; overruns are caught up (lateness recurrence and bound); "
              "after free()/with-exit every wait returns at its call time and the handle is released exactly once; round-to-nearest period conversion over Q. "
-             "Tied to NotifierDelay by correspondence under the simulated HAL (exact microseconds) + exhaustive float sweep of round(P*1e6) for n in [1000, 2000000].",
+             "__exit__ frees whatever leaves the with-block and never swallows. Tied to NotifierDelay by its methods regenerated from the source on every run (proved equal to create/wait/free), by "
+             "correspondence under the simulated HAL (exact microseconds; with-blocks left by end/break/return/exceptions) + exhaustive float sweep of round(P*1e6) for n in [1000, 2000000].",
         note="Closed under the global context. The HAL notifier is modelled as 'a wait issued at t with alarm a returns at max(t,a)' (validated by the correspondence only); uint64 as unbounded Z; OS scheduling latency not modelled.",
-        technique="Coq proof (induction over schedules) + correspondence under simulated HAL + exhaustive finite float sweep", design="6.8"),
+        technique="Coq proof (induction over schedules) + methods regenerated from the source (pytr) + correspondence under simulated HAL + exhaustive finite float sweep", design="6.8"),
     "C18": dict(
         text="Theorems (Coq over Q, unit chains of any depth with mutually inverse linear links): convert to the same unit is identity, there-and-back, "
              "composition a->b->c = a->c, linearity, exact application order; for the unit table regenerated from the module on every run: 100 cm/m, 0.3048 m/ft, "
@@ -119,9 +124,13 @@ CLAIMED = {
         text="Theorems (Coq, every robot layout, every history of driver-station words incl. endCompetition): the robot makes exactly the calls of "
              "the specification in order (with the FMS attached: whatever raises); per pass the mode's own code, then execute() of every component in "
              "declaration order, then the feedbacks, then robotPeriodic; execute exactly once per enabled pass and never in disabled/test; one pass per "
-             "wake-up; /robot/mode written on entry. Tied to the real startCompetition() (one process per generated robot, stepped simulated clock) by "
-             "full callback-log correspondence incl. /robot/mode and FPGA timestamps on the 20 ms grid.",
-        note='Closed under the global context. One Tick = one wake-up of the mode loop with that driver-station word; the word only changes while the loop waits; user callbacks take no simulated time; HAL notifier, DriverStationSim and ntcore are exercised by the correspondence, not modelled in depth; threads and real-time latency not modelled.' + " The 20 ms grid itself is C16's theorem (NotifierDelay); here it is observed, and 'one pass per wake-up' is what is proved.",
+             "wake-up; /robot/mode written on entry; the time axis: the mode loop composed with the NotifierDelay model - alarms never leave the grid anchored at the "
+             "loop's creation, and while pass + wake-up lateness fit in the period the i-th wake-up is exactly its lateness after grid point i. The enter/iteration/"
+             "leave/startup programs, the leave tests, the dispatch and onException are REGENERATED from magicrobot.py + selector.py on every run and proved equal to the "
+             "model's; tied further to the real startCompetition() (one process per generated robot, stepped simulated clock, FMS attached/detached mid-run, timed "
+             "robots whose callbacks take FPGA time and whose wake-ups come late, periods 5-25 ms) by full callback-log correspondence incl. /robot/mode and every "
+             "wait() call/return/alarm time of every mode loop.",
+        note='Closed under the global context. One Tick = one wake-up of the mode loop with that driver-station word; the word only changes while the loop waits; user callbacks take no simulated time; HAL notifier, DriverStationSim and ntcore are exercised by the correspondence, not modelled in depth; threads and real-time latency not modelled.' + " Callbacks may take simulated time in the timed C05 robots. The link between a Tick of the loop model and a wait() return of the time-axis model is the driver's one-tick-one-wake-up discipline (checked by the correspondence), not a Coq theorem.",
         technique="Coq proof (induction over guarded programs and tick histories) + callback-log correspondence evaluated in Coq", design="6.4"),
     "C06": dict(
         text="Theorems (Coq, all layouts and tick histories): setup() once per component and before every other callback; on_enable() of every component "
@@ -132,8 +141,9 @@ CLAIMED = {
     "C07": dict(
         text="Theorems (Coq, every set of raising invocations): with the FMS attached every callback of the specified sequence still runs, in order, and no "
              "exception escapes (the calls equal those of the fault-free robot); every callback of every mode program sits directly under a guard; without the "
-             "FMS the first raising invocation is the last call and the exception propagates out of the robot program. Tied by correspondence with scripted "
-             "faults at arbitrary invocation indices (single, multiple, every time), FMS on and off.",
+             "FMS the first raising invocation is the last call and the exception propagates out of the robot program; with the FMS attached and detached at will "
+             "while the robot runs, the run ends exactly at the first raising invocation that happens while the FMS is not attached. Programs regenerated from the source "
+             "(see C05); tied further by correspondence with scripted faults at arbitrary invocation indices (single, multiple, every time), FMS on, off and changing mid-run.",
         note='Closed under the global context. One Tick = one wake-up of the mode loop with that driver-station word; the word only changes while the loop waits; user callbacks take no simulated time; HAL notifier, DriverStationSim and ntcore are exercised by the correspondence, not modelled in depth; threads and real-time latency not modelled.' + " setup() is outside the property's list and unguarded in the code: theorems assume no setup() raises.",
         technique="Coq proof (exception semantics of guarded programs by induction) + fault-injection correspondence evaluated in Coq", design="6.4"),
     "C10": dict(
